@@ -96,6 +96,13 @@ def analyze(s, reencode=True, stereo=True):
         sel = sf.encoder(s)
     except sf.EncoderError as e:
         first = str(e).split('\n')[0]
+        if kek is True and 'semantic constraints' in first:
+            # rejected by the strict valence check, not by kekulization: the completeness clause is about the latter
+            try:
+                sf.encoder(s, strict=False)
+                return [('rejected', first)]
+            except sf.EncoderError as e2:
+                first = str(e2).split('\n')[0]
         if kek is True:
             return [('C05:complete', 'an alternating single/double assignment exists for %r (standard aromatic atom '
                      'kinds) but the encoder raised EncoderError: %s' % (s, first))]
